@@ -153,8 +153,17 @@ def r2(ctx, rep):
         if n.get("k") == "if" and show(n["c"]) == "!ctx.query.window_function":
             inner = [i for i in walk(n["t"]) if i.get("k") == "if" and i["c"].get("k") == "let" and show(i["c"]["e"]) == "coalesce"]
             for i in inner:
-                fm = [lit_val(mm["a"][0]) for mm in macros(i["t"], "format") if mm.get("a")]
-                ok = "COALESCE({text}, {default})" in fm
+                bound = [x["n"] for x in walk(i["c"]["pat"]) if x.get("k") == "p_ident"]
+                for a in walk(i["t"]):
+                    # <acc> = format!("COALESCE({<acc>}, {<the default bound by the if-let>})"), whatever the names are
+                    if a.get("k") == "assign" and a["rhs"].get("k") == "macro" and a["rhs"]["n"] == "format" and a["rhs"].get("a"):
+                        fm = lit_val(a["rhs"]["a"][0])
+                        args = [show(x) for x in a["rhs"]["a"][1:]]
+                        m = re.fullmatch(r"COALESCE\(\{(\w*)\}, \{(\w*)\}\)", fm or "")
+                        if m:
+                            g1 = m.group(1) or (args[0] if args else "")
+                            g2 = m.group(2) or (args[1 if not m.group(1) else 0] if args else "")
+                            ok = g1 == show(a["lhs"]) and bool(bound) and g2 == bound[0]
     rep.check(ok, "wrapper", "translate_operator must wrap the emitted text as COALESCE(<text>, <default>) when the implementation declares coalesce", file=to["file"], line=to["l"], fn=to["path"])
     fi = syn.fn("operators::find_operator_impl", crate="prqlc")
     rep.check("pluck_annotation(&annotation, 'coalesce')" in show_stmts(fi["body"], maxdepth=10).replace("&mut ", "&"), "pluck",
